@@ -88,7 +88,7 @@ CHECKS = {
     "C10": {
         "bins": ["client_sm", "client_loop"],
         "category": "model_checking",
-        "text": "Same model with every broker packet kind (v5: acknowledgements with success and with failure reason codes) and ids 0..limit+1; TLC checks on every transition that Incoming events equal the processed packets in order and that written packets and Outgoing announcements correspond one to one; replies to QoS1/QoS2/PUBREL and error results for unsolicited acks are part of the transcription that is bound to the code by the MqttState replay (manual acks on and off). The model is bound to the code in both directions: TLC-generated call sequences are replayed into the real rumqttc::MqttState and rumqttc::v5::MqttState with every observable compared, and the real EventLoop (both versions) is driven over an in-memory transport under paused time by TLC-generated and seeded random stimulus scripts (limits 2 and 100) whose recorded traces TLC validates against ClientLoopTrace.tla with this property's invariants evaluated in every state. The seeded scripts include bursts of 9-25 broker packets between two polls (more than one read batch).",
+        "text": "Same model with every broker packet kind (v5: acknowledgements with success and with failure reason codes) and ids 0..limit+1; TLC checks on every transition that Incoming events equal the processed packets in order and that written packets and Outgoing announcements correspond one to one; replies to QoS1/QoS2/PUBREL and error results for unsolicited acks are part of the transcription that is bound to the code by the MqttState replay (manual acks on and off). The model is bound to the code in both directions: TLC-generated call sequences are replayed into the real rumqttc::MqttState and rumqttc::v5::MqttState with every observable compared, and the real EventLoop (both versions) is driven over an in-memory transport under paused time by TLC-generated and seeded random stimulus scripts (limits 2 and 100) whose recorded traces TLC validates against ClientLoopTrace.tla with this property's invariants evaluated in every state. Separate scripts send bursts of 9-25 publishes from the broker between two polls (more than one read batch) on an otherwise idle connection.",
         "design_ref": "DESIGN.md section 6 / C10",
         "note": "Trusted: ClientState.tla/ClientLoop.tla as transcription of state.rs/eventloop.rs (bound by call-by-call equality replay of MqttState and by trace validation of the real EventLoop), TLC, the scripted in-memory broker of the harness. Exhaustive only for limits 2-3 and a handful of messages; limit 100 sampled by validated traces. v5 acknowledgements are modelled with two reason classes (success / failure code); topic aliases are not modelled.",
         "technique": "TLC model checking of ClientLoop.tla + spec->impl replay into MqttState + TLC trace validation of real EventLoop executions with the property invariants evaluated on every trace state",
